@@ -1077,8 +1077,14 @@ class C08Session:
         if st["via"] == "get_symbols":
             sp_arg = None if not any(spins) else "".join(spins) if all(spins) else None
             if any(spins) and not all(spins):
-                ret = self.ind.get_indices(names, spins)
-                return {"n": sum(len(v) for v in ret.values())}
+                # spins given as a list with empty strings (indices with and without spin in
+                # one request, as the get_indices docstring allows)
+                ret = get_symbols(list(names), list(spins))
+                if [s.name for s in ret] != list(names) or \
+                        [self.key_of(s)[1] for s in ret] != list(spins):
+                    self.viol("registry", "R3", f"get_symbols({names}, {spins}) returned "
+                              f"{ret}")
+                return {"n": len(ret)}
             ret = get_symbols(list(names), sp_arg)
             if [s.name for s in ret] != list(names):
                 self.viol("registry", "R3", f"get_symbols({names}) returned {ret}")
